@@ -200,3 +200,37 @@ def run_nrt(prog):
            'elapsed': main.elapsed_time()}
     main.reset()
     return out
+
+
+def run_rt(sim, prog, tape, horizon):
+    """Whole program in simulated RT mode (vlib/rtsim.py). Returns dict(trace,
+    dgrams [(hex, target)], t0, jitter, errors)."""
+    from sc3.base.main import main
+    from sc3.base import clock as clk
+    sim.tape = list(tape)
+    sim.tape_pos = 0
+    sim.total_jitter = 0.0
+    sim.thread_errors = []
+    clk.SystemClock.clear()
+    clk.AppClock.clear()
+    sim.settle()
+    sent = []
+    iface = main._osc_interface
+    old_send = iface._send
+    iface._send = lambda msg, target=None: sent.append(
+        (bytes(msg.dgram).hex(), list(target) if target else None))
+    it = Interp(prog)
+    try:
+        it.setup()
+        it.run_top()
+        sim.run_until(sim.now + horizon)
+    finally:
+        iface._send = old_send
+        it.teardown()
+        sim.settle()
+        sim.threads = [t for t in sim.threads if t.state != 'finished']
+    offset = clk.SystemClock._elapsed_osc_offset
+    return {'trace': it.trace, 'dgrams': sent, 't0': it.t0,
+            'osc_offset': offset, 'jitter': sim.total_jitter,
+            'tape_used': sim.tape_pos,
+            'errors': [f'{n}: {e!r}' for n, e in sim.thread_errors]}
